@@ -566,7 +566,13 @@ def progset_ops(R, case, P, pset, instr, rng):
             elif op == "remove_pop":
                 if len(ps.pops) < 2:
                     continue
-                ps.remove_pop(list(ps.pops.keys())[-1])
+                code_ = list(ps.pops.keys())[-1]
+                label_ = ps.pops[code_]["label"]
+                if rng.random() < 0.5 and label_ != code_ and label_ not in ps.pops:
+                    ps.remove_pop(label_)  # (the method accepts the code name or the full name)
+                    R.count("remove_pop_by_full_name")
+                else:
+                    ps.remove_pop(code_)
             elif op == "add_pop":
                 continue
             applied.append(op)
